@@ -130,6 +130,8 @@ void runVal(const json& ep)
                     p.setTimestamp(beValue(op["ts"]));
                 if (op.contains("fl"))
                     p.setCommonFlags(static_cast<uint8_t>(op["fl"].get<int>()));
+                if (op.contains("ptvia"))
+                    p.getPayload().setRawPayloadType(static_cast<uint8_t>(op["ptvia"].get<int>()));   // through the non-const reference
                 if (op.contains("pl"))
                 {
                     const auto b = bytesOf(op["pl"]);
